@@ -6,6 +6,7 @@ CONSTANTS
   MaxCol = 2
   MaxPause = 1
   MaxCkpt = 1
+  MaxCfg = 1
   GreedySets = {{}}
   LazyModes = {FALSE}
   WrongGroup = TRUE
